@@ -18,7 +18,7 @@ ASSUMPTIONS = [
 ]
 BUDGET = {
 	'quick': {'seconds': 40, 'modules': 500, 'shards': 16},
-	'thorough': {'seconds': 560, 'modules': 30000, 'shards': 16},
+	'thorough': {'seconds': 560, 'modules': 30000, 'shards': 16, 'typed_seconds': 120},
 }
 
 
@@ -50,7 +50,7 @@ _shared: dict = {}   # one long-lived Procedure per shard (mode 'reused'): conse
                      # revisions are equal by (module path, full path) although their trees differ — what an interactive session does
 
 
-def run(root, mode: str, nested_kinds: set[str], abort_at: int | None = None, reuse: bool = False, editing: bool = False) -> Recorder:
+def run(root, mode: str, nested_kinds: set[str], abort_at: int | None = None, reuse: bool = False, editing: bool = False, side=None) -> Recorder:
 	"""mode: 'fallback' | 'exact'. With abort_at a first run on the same Procedure is aborted by an exception raised in the handler of the
 	abort_at-th node (the caller catches it, as the interactive mode does); the judged run is the one after it."""
 	from rogw.tranp.errors import Errors
@@ -69,6 +69,8 @@ def run(root, mode: str, nested_kinds: set[str], abort_at: int | None = None, re
 				rec.aborted = True
 				raise Abort()
 			return node
+		if side is not None and depth['n'] == 0:
+			side(node)  # what real handlers do on the way: ask for the type of the node (which reads properties of other nodes)
 		if depth['n'] == 0:
 			rec.order.append(node)
 			rec.events[(node.module_path, node.full_path)] = (node, {k: list(v) if isinstance(v, list) else v for k, v in event.items()} if editing else event)
@@ -259,6 +261,68 @@ def cases(draw):
 	return {'source': src, 'nested': rnd.sample(KINDS, rnd.randint(0, 4)), 'abort_at': rnd.choice([None, None, 2, 3, 5, 8, 13, 21])}
 
 
+GENERIC_TAIL = '''
+T_Z = TypeVar('T_Z')
+
+class ZGB(Generic[T_Z]):
+	zv: T_Z
+	zl: list[T_Z]
+
+	def __init__(self, a_z: T_Z) -> None:
+		self.zv = a_z
+		self.zl = [a_z]
+
+class ZGS(ZGB[int]):
+	def zread(self) -> int:
+		return self.zv + len(self.zl)
+'''
+
+_typed_app = None
+
+
+@st.composite
+def typed_cases(draw, exclude: frozenset = frozenset()):
+	"""Well-typed G1 programs (plus a class that derives from a specialised generic base and reads an inherited attribute of the type
+	variable's type), processed while every handler asks for the type of its node, as the handlers of the transpiler do."""
+	from vf import pygen
+	rnd = draw(st.randoms(use_true_random=False))
+	src = pygen.gen_program(rnd, set(exclude), size=1)['source']
+	if 'from typing import Generic, TypeVar' not in src:
+		src = 'from typing import Generic, TypeVar\n' + src
+	return {'source': src + GENERIC_TAIL, 'typed': True}
+
+
+def judge_typed(scratch: str, source: str) -> tuple[list[tuple[str, str]], dict]:
+	global _typed_app
+	from rogw.tranp.errors import Errors
+	from rogw.tranp.semantics.reflections import Reflections
+	from vf import sut
+	if _typed_app is None:
+		_typed_app = sut.MemApp(scratch)
+	a = _typed_app
+	try:
+		root = a.load_main(source).entrypoint
+	except Errors.Error as e:
+		return [('OUT', 'rejected-at-load:' + type(e).__name__)], {}
+	reflections = a.resolve(Reflections)
+	asked = {'n': 0}
+
+	def side(node) -> None:
+		try:
+			reflections.type_of(node)
+			asked['n'] += 1
+		except (Errors.Error, RecursionError):
+			pass
+
+	try:
+		rec = run(root, 'fallback', set(), side=side)
+		if not rec.fails:
+			check_events(root, rec)
+	except Errors.Error as e:
+		return [('OUT', 'node-props-raise:' + type(e).__name__)], {}
+	return [(f'typed:{sig}', d) for sig, d in rec.fails], {'nontrivial': asked['n'] > 20, 'nodes': len(rec.order), 'typed_nodes': asked['n']}
+
+
 def shard(ctx: core.Ctx) -> None:
 	from vf import corpus, env
 
@@ -287,6 +351,19 @@ def shard(ctx: core.Ctx) -> None:
 
 	core.drive(ctx, cases(), body, total=ctx.budget['modules'], chunk=50)
 
+	def typed_body(case: dict) -> None:
+		fails, info = judge_typed(ctx.scratch, case['source'])
+		if fails and fails[0][0] == 'OUT':
+			ctx.discard(fails[0][1])
+			ctx.evaluations += 1
+			return
+		ctx.case(case['source'], info['nontrivial'], labels=['g1-program-with-type-inference-in-handlers'])
+		for sig, detail in fails:
+			ctx.fail(sig, detail, {'kind': 'typed', 'source': case['source']})
+
+	ctx.deadline += float(ctx.budget.get('typed_seconds', 15))
+	core.drive(ctx, typed_cases(core.frontend_exclusions() | frozenset({'optional', 'iterator-class'})), typed_body, total=max(4, ctx.budget['modules'] // 40), chunk=10)
+
 
 def replay(case: dict) -> list[tuple[str, str]]:
 	from vf import corpus, env
@@ -294,7 +371,11 @@ def replay(case: dict) -> list[tuple[str, str]]:
 	with env.Scratch('c09r') as s:
 		_app = None
 		try:
-			if case['kind'] == 'file':
+			if case['kind'] == 'typed':
+				global _typed_app
+				_typed_app = None
+				fails, _ = judge_typed(s.path, case['source'])
+			elif case['kind'] == 'file':
 				fails, _ = judge(app(s.path), corpus.read(os.path.join(env.REPO, case['path'])), ['Function', 'Method', 'Class', 'If', 'FuncCall'], 40)
 			else:
 				fails, _ = judge(app(s.path), case['source'], case['nested'], case.get('abort_at'))
